@@ -447,3 +447,91 @@ func canonParams(fd *ast.FuncDecl, names ...string) map[string]*T {
 	}
 	return out
 }
+
+// FRM-REDEFINE: when a function or method that already exists is defined again, the
+// existing function object is either replaced as a whole or overwritten as a whole
+// (`*old = *new`).  Copying only some fields (e.g. just the body) leaves the arity,
+// result count and variadic flags of the previous definition attached to the new body,
+// and the next call sets up the wrong frame.
+func ruleFrmRedefine(c *Ctx, r *R) {
+	// the fields of funcT
+	var fields []string
+	if nt := c.NamedType("funcT"); nt != nil {
+		if st, ok := nt.Underlying().(*types.Struct); ok {
+			for i := 0; i < st.NumFields(); i++ {
+				if !st.Field(i).Embedded() {
+					fields = append(fields, st.Field(i).Name())
+				}
+			}
+		}
+	}
+	if len(fields) < 3 {
+		r.undecided("funcT", "-", "funcT's fields not found")
+		return
+	}
+	judge := func(key, pos string, stores []string) {
+		covered := map[string]bool{}
+		partial := false
+		for _, s := range stores {
+			eq := strings.Index(s, " = ")
+			if eq < 0 {
+				continue
+			}
+			lhs := s[:eq]
+			for _, f := range fields {
+				if strings.HasSuffix(lhs, "."+f) && (strings.Contains(lhs, "funcT") || strings.Contains(lhs, "getFunc")) {
+					covered[f] = true
+					partial = true
+				}
+			}
+		}
+		if !partial {
+			r.ok(key, "whole-object replacement or copy")
+			return
+		}
+		var missing []string
+		for _, f := range fields {
+			if !covered[f] {
+				missing = append(missing, f)
+			}
+		}
+		r.check(len(missing) == 0, key, pos, "all fields copied",
+			key+" overwrites an existing function object field by field and leaves out "+strings.Join(missing, ", ")+": after a redefinition with a different signature the new body runs with the old arity/result/variadic metadata, so arguments and results are misaligned on the stack")
+	}
+	m, err := newHndMachine(c)
+	if err != nil {
+		r.undecided("exec", "-", err.Error())
+		return
+	}
+	n := 0
+	for _, op := range []string{"codeGlobalFunc", "codeSetMethod"} {
+		sc := m.sw.ByLabel[op]
+		if sc == nil {
+			continue
+		}
+		ps, err := m.single(op)
+		if err != nil {
+			r.undecided(op, c.Pos(sc.Clause), err.Error())
+			continue
+		}
+		for i, p := range ps {
+			n++
+			judge(fmt.Sprintf("%s path %d", strings.TrimPrefix(op, "code"), i), c.Pos(sc.Clause), p.Stores)
+		}
+	}
+	if fd := c.Func("Value.addMethod"); fd != nil {
+		for i, p := range c.pathsOf("Value.addMethod") {
+			n++
+			var stores []string
+			for _, e := range p.Eff {
+				if e.Kind == "store" {
+					stores = append(stores, e.String())
+				}
+			}
+			judge(fmt.Sprintf("addMethod path %d", i), c.Pos(fd), stores)
+		}
+	}
+	if n < 3 {
+		r.undecided("redefine", "-", fmt.Sprintf("only %d definition paths found", n))
+	}
+}
